@@ -183,12 +183,15 @@ def check_conc(prop, tier):
             drift += uuid_part(res, work, tier, rng)
         if drift and not res.violations:
             # ESCALATION: enumerate many more schedules of the real code on the drifting scenarios
-            dsc = sorted({d["sc"] for d in s2["drifts"]})[:12]
+            # the scenarios with the most calls first: consequences of a divergence need follow-up operations
+            size = lambda i: sum(len(p) for p in hs2[i]["threads"])
+            dsc = sorted({d["sc"] for d in s2["drifts"]}, key=lambda i: (-size(i), i))[:16]
             esc = []
             for i in dsc:
                 base = dict(hs2[i])
-                esc.append(dict(base, sched={"mode": "dfs", "pb": 3, "max": 600}))
-                esc.append(dict(base, sched={"mode": "pct", "seed": seed() * 31 + i, "runs": 150, "d": 4}))
+                esc.append(dict(base, sched={"mode": "dfs", "pb": 3, "max": 1500}))
+                esc.append(dict(base, sched={"mode": "pct", "seed": seed() * 31 + i, "runs": 300, "d": 4}))
+                esc.append(dict(base, sched={"mode": "starve"}))
             if not esc:
                 esc = [dict(hs2[i], sched={"mode": "pct", "seed": seed() * 37 + i, "runs": 40, "d": 4}) for i in range(0, len(hs2), 2)][:40]
             h3 = run_harness("level", esc, work, "esc", timeout=3000)
